@@ -411,9 +411,20 @@ def build_to(spec, colnames):
         return d, {"kind": "dict", "m": [[kk, v] for kk, v in d.items()]}
     if k == "callable":
         d = {kk: v for kk, v in spec["m"]}
-        f = (lambda name: d.get(name))
+        if spec.get("once"):
+            # a callable within its contract that is not idempotent: it ticks every name off a work list, so a
+            # second request for the same name is answered None.  The requested unit is its (first) answer.
+            asked = set()
+
+            def f(name):
+                if name in asked:
+                    return None
+                asked.add(name)
+                return d.get(name)
+        else:
+            f = (lambda name: d.get(name))
         f.backing = d
-        return f, {"kind": "fn", "m": [[nm, f(nm)] for nm in colnames]}
+        return f, {"kind": "fn", "m": [[nm, d.get(nm)] for nm in colnames]}
     if k == "other":
         import types
         # (a Mapping that is not a dict is outside ColumnUnitDispatcher: neither Sequence, Dict nor callable)
@@ -841,6 +852,8 @@ def gen_to(rng, table, family):
                     taken.add(near)
                     m.append([near, rng.choice(UNITS[family] + BAD_UNITS[family])])
         rng.shuffle(m)
+        if form == "callable" and rng.random() < 0.3:
+            return {"kind": form, "m": m, "once": True}
         return {"kind": form, "m": m}
     if form == "percol":
         # per-column spellings __base__ / __origin__ inside a positional list
@@ -882,6 +895,8 @@ def gen_case(rng, seed, idx, tier):
         # the converter object has served other requests on this table before (some of them failing)
         case["warmup"] = [gen_to(rng, table, family) for _ in range(rng.choice([1, 2]))]
         case["repeat"] = max(case.get("repeat", 0), 1)
+    if to.get("once"):
+        case.pop("repeat", None)       # the work-list callable is used up by one conversion
     return case
 
 
@@ -925,7 +940,8 @@ def fixed_cases(seed):
            {"kind": "callable", "m": [["b", "uk"]]}, {"kind": "other", "what": "int"},
            {"kind": "list", "xs": ["__base__", "__origin__", None, None, None]},
            {"kind": "dict", "m": [["a", "zz"]]}, {"kind": "dict", "m": [["d", "u1"]]}, {"kind": "dict", "m": []},
-           {"kind": "callable", "m": []}, {"kind": "list", "xs": [None, None, None, None, None]}]
+           {"kind": "callable", "m": []}, {"kind": "list", "xs": [None, None, None, None, None]},
+           {"kind": "callable", "m": [["a", "u1"], ["b", "uk"]], "once": True}]
     out = []
     for to in tos:
         for cv in (pure, dict(pure, decoy_default=True), {"kind": "fail", "pure": "affine", "fail_at": 1}, {"kind": "none"},
@@ -1026,7 +1042,13 @@ def run(tier, seed, model_ok, translator, search=False):
                 "requests, the judged request and its repetitions (failing requests included: unknown source units, "
                 "inconvertible pairs), a stateful custom converter; pint units differing in letter case only; the caller's dispatcher object compared with its snapshot "
                 "and reused for up to three consecutive conversions; after every returned table the result and then the original are edited "
-                "in place (destinations, name, a unit, a cell) and the other one is compared with its snapshot. Non-trivial: the converter was called or a "
+                "in place (destinations, name, a unit, a cell) and the other one is compared with its snapshot; a callable dispatcher that "
+                "ticks names off a work list (second request for a name: None). Bulk conversion while reading (pdtable/utils.py): streams of 0-5 "
+                "blocks (tables with repeated / case-variant names, metadata, directive, blank, template, TABLE blocks without value) through "
+                "normalized_table_generator and — as CSV text with 5 separators — read_bundle_from_csv x table dispatcher (dict with superfluous "
+                "and None entries, callable, empty dict, None, non-dispatchers of either truth value) x converter (pure, failing on its k-th call "
+                "overall, module default, absent), judged by a reference loop over twin tables, identity of passed-through blocks, snapshots of "
+                "the incoming tables and the Lean model of the generator. Non-trivial: the converter was called or a "
                 "special column was refused.")
     rng = make_rng(seed, "C06")
     ops, pend = [], []
@@ -1037,9 +1059,21 @@ def run(tier, seed, model_ok, translator, search=False):
         eval_case(case, out, ops, pend, model_ok)
         if len(out.failures) >= 50:
             break
+    # bulk conversion while reading (pdtable/utils.py): normalized_table_generator, read_bundle_from_csv
+    from harness.props import c06_bulk
+    brng = make_rng(seed, "C06-bulk")
+    bulk_cases = c06_bulk.fixed_bulk_cases(seed) + \
+        [c06_bulk.gen_bulk_case(brng, seed, i) for i in range(2400 if tier == "thorough" else 600)]
+    for case in bulk_cases:
+        c06_bulk.eval_bulk(case, out, ops, pend, model_ok)
+        if len(out.failures) >= 50:
+            break
     if model_ok:
         for (case, obs), ans in zip(pend, common.run_model(ops)):
-            compare(case, obs, ans, out)
+            if case.get("bulk"):
+                c06_bulk.compare_bulk(case, obs, ans, out)
+            else:
+                compare(case, obs, ans, out)
     if translator and sorted(translator.get("values", {}).get("inconvertible", [])) != sorted(SPECIAL):
         out.notes.append("INCONVERTIBLE_UNIT_INDICATORS in the source differs from the statement's text/onoff/datetime")
     return out
@@ -1047,6 +1081,13 @@ def run(tier, seed, model_ok, translator, search=False):
 
 def replay(rep):
     inp = rep.get("input") or {}
+    if inp.get("bulk"):
+        from harness.props import c06_bulk
+        out = Outcome()
+        c06_bulk.eval_bulk(inp, out, [], [], False, record=False)
+        if out.failures:
+            return False, out.failures[0]["what"]
+        return True, "property holds on this input"
     if "table" not in inp:
         return False, "replay file has no input (no-failing-input-found): " + str(rep.get("broken"))[:300]
     out = Outcome()
